@@ -301,12 +301,19 @@ CLAIMED.update({
          "session ends, then onDisconnect; _errback_outstanding_requests empties all six request tables and completes "
          "every future that was pending (loop invariants over an unbounded number of requests); the default "
          "onLeave/onDisconnect call it; publish/call/subscribe/register/_unsubscribe/_unregister raise TransportLost "
-         "with nothing sent or recorded once the transport is gone.",
+         "with nothing sent or recorded once the transport is gone."
+         "  The handshake arms are units of their own: WELCOME / CHALLENGE / ABORT call the local hook once and change nothing; "
+         "the WELCOME continuation establishes the session (session id, one 'join') only when onWelcome accepted, and answers "
+         "a denial or a failing hook with exactly one ABORT while the session stays unestablished (no join, no later leave, "
+         "GOODBYE still illegal); the CHALLENGE continuation sends exactly one AUTHENTICATE carrying the signature (anything "
+         "but a string raises and sends nothing), its error path one ABORT followed by one leave.",
     note="Trusted: z3, pyvc (record heap, symbolic tables, dict.values() as a sequence containing every present value), "
          "txaio as_future/add_callbacks (callback *order* connect<join<leave<disconnect across future chains is assumed), "
-         "message constructors as records. Not covered: the WELCOME/ABORT/CHALLENGE arms (closure chains over txaio), "
-         "join(), at-most-once onClose from the transports (C13).",
-    technique="contract-based deductive verification: per-message-class units, symbolic tables + record heap, z3"),
+         "message constructors as records. Not covered: join() / onConnect (HELLO construction), the asynchronous chaining of "
+         "the closures (txaio add_callbacks runs each continuation once after its hook: assumed), at-most-once onClose from "
+         "the transports (C13).",
+    technique="contract-based deductive verification: per-message-class and per-closure units, symbolic tables + record "
+              "heap, z3; handshake counterexamples replayed as histories on the real session"),
 })
 
 CLAIMED.update({
